@@ -14,7 +14,7 @@ import (
 // output-file contract.
 func CheckC12(t Target, src *choice.Src, st *Stats) *Violation {
 	var w *World
-	fam := src.Draw("c12.family", 11)
+	fam := src.Draw("c12.family", 12)
 	name := ""
 	switch fam {
 	case 0, 1:
@@ -50,6 +50,21 @@ func CheckC12(t Target, src *choice.Src, st *Stats) *Violation {
 	case 8:
 		name = "layered-graph"
 		w = layeredWorld(src)
+	case 11:
+		name = "duplicated-declarations"
+		// every file once more under another name (each service, call, tag, parameter and decorator is
+		// declared twice, identically - also the malformed ones a storm produced)
+		w = GenWorld(src, WOpts{Flags: true, Fake: src.Bool("fake"), Storm: src.Bool("storm"), Defects: src.Chance("def", 1, 3)})
+		n := len(w.Files)
+		for i := 0; i < n; i++ {
+			f := w.Files[i]
+			if strings.HasSuffix(f.Path, ".yaml") {
+				w.Files = append(w.Files, InFile{Path: strings.TrimSuffix(f.Path, ".yaml") + "_again.yaml", Content: f.Content})
+				if !strings.ContainsAny(strings.Join(w.Patterns, " "), "*?[") {
+					w.Patterns = append(w.Patterns, strings.TrimSuffix(f.Path, ".yaml")+"_again.yaml")
+				}
+			}
+		}
 	case 10:
 		name = "many-files"
 		w = manyFilesWorld(src)
@@ -181,7 +196,8 @@ func pathologicalWorld(src *choice.Src) *World {
 	fname := choice.Pick(src, "patho.fname", []string{"a.yaml", longName(src, 60) + ".yaml", longName(src, 200) + ".yaml", "we[ird].yaml", "st*r.yaml", "q?.yaml", "sp ace.yaml", "back\\slash.yaml", "ünï.yaml", "-dash.yaml", "{b}.yaml"})
 	dir := choice.Pick(src, "patho.dir", []string{"conf", "c[o]nf", longName(src, 100), "a/b/c/d/e/f"})
 	w.Files = []InFile{{Path: dir + "/" + fname, Content: content}}
-	w.Patterns = []string{choice.Pick(src, "patho.pat", []string{dir + "/*.yaml", dir + "/" + fname, "*/*.yaml", dir + "/*", "**/*.yaml", dir + "/[", dir + "/\\*.yaml", "*/" + fname, strings.Repeat("*/", 40) + "x", dir + "/{a,b}.yaml"})}
+	w.Patterns = []string{choice.Pick(src, "patho.pat", []string{dir + "/*.yaml", dir + "/" + fname, "*/*.yaml", dir + "/*", "**/*.yaml", dir + "/[", dir + "/\\*.yaml", "*/" + fname, strings.Repeat("*/", 40) + "x", dir + "/{a,b}.yaml",
+		"**/[z-a]*.yaml", dir + "/**/[]x.yaml", "**/[\\]", dir + "/**", "**", dir + "/[^a]*.yaml", dir + "/[a-", "**/*[[]*"})}
 	if src.Bool("patho.second") {
 		w.Patterns = append(w.Patterns, dir+"/*.yaml")
 	}
